@@ -1880,5 +1880,23 @@ func appendNotNilFilter(field *aggregateRequestTarget, childField string) {
 	}
 
 	typedChildBlock := childBlock.(map[string]any)
+	if userValue, hasUserNe := typedChildBlock["_ne"]; hasUserNe && userValue != nil {
+		// The consumer already filters this field with _ne. Overwriting it would silently drop
+		// their condition, so both conditions are kept by combining them with _and.
+		var notNil map[string]any
+		if childField == "" {
+			notNil = map[string]any{"_ne": nil}
+		} else {
+			notNil = map[string]any{childField: map[string]any{"_ne": nil}}
+		}
+		field.filter = immutable.Some(
+			request.Filter{
+				Conditions: map[string]any{
+					request.FilterOpAnd: []any{field.filter.Value().Conditions, notNil},
+				},
+			},
+		)
+		return
+	}
 	typedChildBlock["_ne"] = nil
 }
